@@ -54,6 +54,21 @@ type Config struct {
 	ClockNanos       int      `json:"clock_nanos,omitempty"` // sub-second part of the instant, 0..999999999
 	ClockOffsetMin   int      `json:"clock_offset_min,omitempty"`
 	GetNilForMissing bool     `json:"get_nil_for_missing,omitempty"` // Get returns (nil, nil) for unknown ids
+	// StrictNil makes the simulated Database and Transport use the IRIs they
+	// are given the way an ordinary implementation does (id.String()): a nil
+	// IRI handed over by the library then ends in a nil dereference inside
+	// the Actor method that passed it.
+	StrictNil bool `json:"strict_nil,omitempty"`
+}
+
+// use touches the IRI arguments of an application call (see Config.StrictNil).
+func (w *World) use(ids ...*url.URL) {
+	if !w.Cfg.StrictNil {
+		return
+	}
+	for _, id := range ids {
+		_ = id.String()
+	}
 }
 
 // Scheduler is implemented by the controlled scheduler (C08).
@@ -284,6 +299,7 @@ func decodeBytes(c context.Context, b []byte) (vocab.Type, error) {
 }
 
 func (d DB) Lock(c context.Context, id *url.URL) error {
+	d.W.use(id)
 	w := d.W
 	w.point(c, "db.Lock "+IRI(id))
 	_, inj := w.ev(c, "db.Lock", true, IRI(id))
@@ -307,6 +323,7 @@ func (d DB) Lock(c context.Context, id *url.URL) error {
 }
 
 func (d DB) Unlock(c context.Context, id *url.URL) error {
+	d.W.use(id)
 	w := d.W
 	idx, _ := w.ev(c, "db.Unlock", false, IRI(id))
 	w.mu.Lock()
@@ -429,6 +446,7 @@ func itemsOf(page []byte) []string {
 }
 
 func (d DB) InboxContains(c context.Context, inbox, id *url.URL) (bool, error) {
+	d.W.use(inbox, id)
 	w := d.W
 	w.point(c, "db.InboxContains")
 	idx, inj := w.ev(c, "db.InboxContains", true, IRI(inbox), IRI(id))
@@ -506,12 +524,14 @@ func (w *World) setPage(c context.Context, kind string, boxes map[string][]byte,
 }
 
 func (d DB) GetInbox(c context.Context, inboxIRI *url.URL) (vocab.ActivityStreamsOrderedCollectionPage, error) {
+	d.W.use(inboxIRI)
 	return d.W.getPage(c, "db.GetInbox", d.W.Inboxes, inboxIRI)
 }
 func (d DB) SetInbox(c context.Context, inbox vocab.ActivityStreamsOrderedCollectionPage) error {
 	return d.W.setPage(c, "db.SetInbox", d.W.Inboxes, inbox)
 }
 func (d DB) GetOutbox(c context.Context, outboxIRI *url.URL) (vocab.ActivityStreamsOrderedCollectionPage, error) {
+	d.W.use(outboxIRI)
 	return d.W.getPage(c, "db.GetOutbox", d.W.Outboxes, outboxIRI)
 }
 func (d DB) SetOutbox(c context.Context, outbox vocab.ActivityStreamsOrderedCollectionPage) error {
@@ -519,6 +539,7 @@ func (d DB) SetOutbox(c context.Context, outbox vocab.ActivityStreamsOrderedColl
 }
 
 func (d DB) Owns(c context.Context, id *url.URL) (bool, error) {
+	d.W.use(id)
 	w := d.W
 	w.point(c, "db.Owns")
 	idx, inj := w.ev(c, "db.Owns", true, IRI(id))
@@ -551,6 +572,7 @@ func (w *World) lookupIRI(c context.Context, kind string, key *url.URL, f func(s
 }
 
 func (d DB) ActorForOutbox(c context.Context, outboxIRI *url.URL) (*url.URL, error) {
+	d.W.use(outboxIRI)
 	return d.W.lookupIRI(c, "db.ActorForOutbox", outboxIRI, func(k string) (string, bool) {
 		a, ok := d.W.byOutbox[k]
 		if !ok {
@@ -560,6 +582,7 @@ func (d DB) ActorForOutbox(c context.Context, outboxIRI *url.URL) (*url.URL, err
 	})
 }
 func (d DB) ActorForInbox(c context.Context, inboxIRI *url.URL) (*url.URL, error) {
+	d.W.use(inboxIRI)
 	return d.W.lookupIRI(c, "db.ActorForInbox", inboxIRI, func(k string) (string, bool) {
 		a, ok := d.W.byInbox[k]
 		if !ok {
@@ -569,6 +592,7 @@ func (d DB) ActorForInbox(c context.Context, inboxIRI *url.URL) (*url.URL, error
 	})
 }
 func (d DB) OutboxForInbox(c context.Context, inboxIRI *url.URL) (*url.URL, error) {
+	d.W.use(inboxIRI)
 	return d.W.lookupIRI(c, "db.OutboxForInbox", inboxIRI, func(k string) (string, bool) {
 		a, ok := d.W.byInbox[k]
 		if !ok {
@@ -581,6 +605,7 @@ func (d DB) OutboxForInbox(c context.Context, inboxIRI *url.URL) (*url.URL, erro
 // InboxForActor answers from the application-stored inbox table; a miss is
 // (nil, nil) as the interface documents.
 func (d DB) InboxForActor(c context.Context, actorIRI *url.URL) (*url.URL, error) {
+	d.W.use(actorIRI)
 	w := d.W
 	w.point(c, "db.InboxForActor")
 	idx, inj := w.ev(c, "db.InboxForActor", true, IRI(actorIRI))
@@ -601,6 +626,7 @@ func (d DB) InboxForActor(c context.Context, actorIRI *url.URL) (*url.URL, error
 }
 
 func (d DB) Exists(c context.Context, id *url.URL) (bool, error) {
+	d.W.use(id)
 	w := d.W
 	w.point(c, "db.Exists")
 	idx, inj := w.ev(c, "db.Exists", true, IRI(id))
@@ -615,6 +641,7 @@ func (d DB) Exists(c context.Context, id *url.URL) (bool, error) {
 }
 
 func (d DB) Get(c context.Context, id *url.URL) (vocab.Type, error) {
+	d.W.use(id)
 	w := d.W
 	w.point(c, "db.Get")
 	idx, inj := w.ev(c, "db.Get", true, IRI(id))
@@ -670,6 +697,7 @@ func (d DB) Update(c context.Context, t vocab.Type) error {
 }
 
 func (d DB) Delete(c context.Context, id *url.URL) error {
+	d.W.use(id)
 	w := d.W
 	w.point(c, "db.Delete")
 	_, inj := w.ev(c, "db.Delete", true, IRI(id))
@@ -743,12 +771,15 @@ func (w *World) collection(c context.Context, kind string, actorIRI *url.URL, pi
 }
 
 func (d DB) Followers(c context.Context, actorIRI *url.URL) (vocab.ActivityStreamsCollection, error) {
+	d.W.use(actorIRI)
 	return d.W.collection(c, "db.Followers", actorIRI, func(a *ActorSpec) string { return a.Followers })
 }
 func (d DB) Following(c context.Context, actorIRI *url.URL) (vocab.ActivityStreamsCollection, error) {
+	d.W.use(actorIRI)
 	return d.W.collection(c, "db.Following", actorIRI, func(a *ActorSpec) string { return a.Following })
 }
 func (d DB) Liked(c context.Context, actorIRI *url.URL) (vocab.ActivityStreamsCollection, error) {
+	d.W.use(actorIRI)
 	return d.W.collection(c, "db.Liked", actorIRI, func(a *ActorSpec) string { return a.Liked })
 }
 
